@@ -3496,13 +3496,13 @@ static void jdf_generate_internal_init(const jdf_t *jdf, const jdf_function_entr
             (0 == (f->user_defines & JDF_HAS_USER_TRIGGERED_TERMDET));
     need_to_iterate = need_min_max || need_to_count_tasks;
 
-    if( (JDF_COMPILER_GLOBAL_ARGS.dep_management == DEP_MANAGEMENT_INDEX_ARRAY) && !need_to_iterate &&
+    if( (JDF_COMPILER_GLOBAL_ARGS.dep_management == DEP_MANAGEMENT_INDEX_ARRAY) && !need_min_max &&
         !(f->user_defines & JDF_FUNCTION_HAS_UD_DEPENDENCIES_FUNS) ) {
-        /* The index arrays are allocated while enumerating the execution space; without the
-         * enumeration there is nothing to store in dependencies_array for this class. */
+        /* The index arrays are allocated while enumerating the execution space, from the
+         * bounds of each parameter; these bounds are only collected for the generated make_key. */
         jdf_fatal(JDF_OBJECT_LINENO(f),
-                  "Task class %s: the index-array dependency management needs to enumerate the execution space, "
-                  "but the user-defined make_key and task count disable this enumeration.\n"
+                  "Task class %s: the index-array dependency management needs the bounds of the execution space, "
+                  "which are not collected when make_key is user-defined.\n"
                   "  Use --dep-management dynamic-hash-table, or define the dependencies functions of %s.\n",
                   f->fname, f->fname);
         exit(1);
